@@ -24,8 +24,8 @@ sys.path.insert(0, ROOT)
 import extract  # noqa: E402
 
 REPO = os.environ.get('VERIF_REPO', '/repo')
-BUILD = os.path.join(ROOT, 'build')
-EVID = os.path.join(ROOT, 'evidence')
+BUILD = os.environ.get('VERIF_BUILD') or os.path.join(ROOT, 'build')  # scratch build output (VERIF_BUILD: used by tools/muttest.sh so that runs against a scratch worktree do not share cargo target dirs with runs against /repo)
+EVID = os.environ.get('VERIF_EVIDENCE') or os.path.join(ROOT, 'evidence')  # VERIF_EVIDENCE: scratch-worktree runs must not overwrite the evidence of /repo
 REPLAY_DIR = os.path.join(EVID, 'replay')
 
 VERIFICATION_MSG = re.compile(
